@@ -24,6 +24,11 @@ package cosmos
 //@   ghost var existsOK bool = false
 //@   set after "if err = cosmos.VerifyCosmosHeader(&myHeader, info); err != nil" : hdrOK := true
 //@   set after "err = prt.VerifyValue(&proof, myHeader.Header.AppHash, proofValue.Kp, proofValue.Value)" : existsOK := err == nil
+//@   -- ... and only for a proof whose IAVL operators are plain single-key existence proofs: the pinned iavl library lets a
+//@   -- further leaf be grafted onto a genuine range proof without changing the root it computes
+//@   ghost var shapeOK bool = false
+//@   set after "if err = scom.CheckIavlExistenceProof(proof.Ops); err != nil" : shapeOK := true
+//@   callsite[c30-plain-existence-proof] VerifyValue#1 requires shapeOK
 //@   ensures[c30-header-verified] err == nil && r0 != nil ==> hdrOK
 //@   ensures[c30-existence] err == nil && r0 != nil ==> existsOK
 //@   callsite[c30-proved-value-is-the-message] NewZeroCopySource#2 requires bytes(arg0) == bytes(proofValue.Value)
